@@ -249,6 +249,10 @@ pub fn c16(stream: &[(Ev, Vec<Act>)], fired: &Fired, pending_bypass_block: &[boo
     let mut credits: i64 = 0;
     let mut zero_dur_fired = false;
     let mut last = 0u64;
+    // a packet without bypass left at exactly the expiry instant while no BlockingEnd had been reported yet: fine if
+    // the blocking then ends at this instant, contradictory if it is extended instead (either it had ended, and the
+    // end must be reported, or it had not, and the packet must not leave)
+    let mut left_at_expiry: Option<u64> = None;
     let ztag = |z: bool| if z { "+zero-duration-block" } else { "" };
     for (i, (e, _acts)) in stream.iter().enumerate() {
         let now = e.t;
@@ -275,6 +279,9 @@ pub fn c16(stream: &[(Ev, Vec<Act>)], fired: &Fired, pending_bypass_block: &[boo
                     allow = p.bypass;
                     latest_allow = p.bypass;
                 } else if p.replace || nu > until {
+                    if left_at_expiry == Some(now) && until == now {
+                        return (Some(Viol { sig: "C16:packet-left-at-expiry-of-a-block-that-was-then-extended".into(), msg: format!("a packet without bypass left at {now}ns, the expiry of the active blocking, no BlockingEnd was reported, and a BlockingBegin of the same instant then continued that blocking until {nu}ns: either the blocking had ended (then its end must be reported) or it had not (then the packet must not leave)"), at: i }), st);
+                    }
                     latest_allow = p.bypass;
                     if p.replace {
                         st.replaced += 1;
@@ -314,6 +321,9 @@ pub fn c16(stream: &[(Ev, Vec<Act>)], fired: &Fired, pending_bypass_block: &[boo
                     }
                     credits -= 1;
                 }
+                if active && now == until && !e.bypass {
+                    left_at_expiry = Some(now);
+                }
                 if active && now < until {
                     st.sent_during_block += 1;
                     if !e.bypass {
@@ -352,8 +362,10 @@ pub fn c15(evs: &[Ev], delay_ns: u64, client_base: usize, server_base: usize, en
     }
     for side in [true, false] {
         for pad in [false, true] {
-            let sent: Vec<u64> = evs.iter().filter(|e| e.client == side && e.event == TriggerEvent::TunnelSent && e.pad == pad).map(|e| e.t).collect();
-            let recv: Vec<u64> = evs.iter().filter(|e| e.client != side && e.event == TriggerEvent::TunnelRecv && e.pad == pad).map(|e| e.t).collect();
+            let sent_ix: Vec<usize> = evs.iter().enumerate().filter(|(_, e)| e.client == side && e.event == TriggerEvent::TunnelSent && e.pad == pad).map(|(i, _)| i).collect();
+            let recv_ix: Vec<usize> = evs.iter().enumerate().filter(|(_, e)| e.client != side && e.event == TriggerEvent::TunnelRecv && e.pad == pad).map(|(i, _)| i).collect();
+            let sent: Vec<u64> = sent_ix.iter().map(|i| evs[*i].t).collect();
+            let recv: Vec<u64> = recv_ix.iter().map(|i| evs[*i].t).collect();
             let who = if side { "client" } else { "server" };
             let kind = if pad { "padding" } else { "normal" };
             if recv.len() > sent.len() {
@@ -363,6 +375,10 @@ pub fn c15(evs: &[Ev], delay_ns: u64, client_base: usize, server_base: usize, en
             for (k, r) in recv.iter().enumerate() {
                 if sent[k] + delay_ns > *r {
                     return Some(Viol { sig: "C15:causality".into(), msg: format!("{kind} packet #{k} from the {who}: received at {r}ns, sent at {}ns, network delay {delay_ns}ns", sent[k]), at: 0 });
+                }
+                // "an earlier tunnel-sent packet": with equal time stamps (network delay 0) the order in the returned trace decides
+                if sent_ix[k] > recv_ix[k] {
+                    return Some(Viol { sig: "C15:received-before-sent-in-trace-order".into(), msg: format!("{kind} packet #{k} from the {who}: its TunnelRecv (trace index {}) precedes its TunnelSent (index {}) in the returned trace, both at {r}ns", recv_ix[k], sent_ix[k]), at: 0 });
                 }
             }
             if !pad {
